@@ -35,3 +35,74 @@ func HasUnboxedCond(p *interpreter.Program) (found bool) {
 	})
 	return found
 }
+
+// DepthShapes reports the program shapes behind the known finding `call-depth-counts-argument-nesting`
+// (the interpreter's stack-depth limiter counts every invocation expression from *before* its arguments
+// are evaluated, native functions included; the VM counts call frames of compiled functions only):
+//
+//	arg-nested-call  an invocation occurs inside an argument of an invocation (`id(f(n - 1))`)
+//	native-call      an invocation whose callee is not declared in the program (`log(…)`, `panic(…)`,
+//	                 `arr.append(…)`): it has no VM call frame
+func DepthShapes(p *interpreter.Program) (shapes []string) {
+	defer func() {
+		if r := recover(); r != nil {
+			shapes = nil
+		}
+	}()
+	declared := map[string]bool{}
+	ast.Inspect(p.Program, func(e ast.Element) bool {
+		switch x := e.(type) {
+		case *ast.FunctionDeclaration:
+			declared[x.Identifier.Identifier] = true
+			if x.ParameterList != nil {
+				for _, prm := range x.ParameterList.Parameters {
+					declared[prm.Identifier.Identifier] = true
+				}
+			}
+		case *ast.FunctionExpression:
+			if x.ParameterList != nil {
+				for _, prm := range x.ParameterList.Parameters {
+					declared[prm.Identifier.Identifier] = true
+				}
+			}
+		case *ast.VariableDeclaration:
+			declared[x.Identifier.Identifier] = true
+		case *ast.CompositeDeclaration:
+			declared[x.Identifier.Identifier] = true
+		}
+		return true
+	})
+	argNested, native := false, false
+	ast.Inspect(p.Program, func(e ast.Element) bool {
+		inv, ok := e.(*ast.InvocationExpression)
+		if !ok {
+			return true
+		}
+		switch callee := inv.InvokedExpression.(type) {
+		case *ast.IdentifierExpression:
+			if !declared[callee.Identifier.Identifier] {
+				native = true
+			}
+		case *ast.MemberExpression:
+			if !declared[callee.Identifier.Identifier] {
+				native = true
+			}
+		}
+		for _, arg := range inv.Arguments {
+			ast.Inspect(arg.Expression, func(a ast.Element) bool {
+				if _, ok := a.(*ast.InvocationExpression); ok {
+					argNested = true
+				}
+				return !argNested
+			})
+		}
+		return true
+	})
+	if argNested {
+		shapes = append(shapes, "arg-nested-call")
+	}
+	if native {
+		shapes = append(shapes, "native-call")
+	}
+	return shapes
+}
